@@ -1,3 +1,175 @@
 import Holpy.Common.Sexp
-/- stub: replaced when the C20 model is built -/
-def main : IO Unit := Holpy.lineLoop (fun _ => "bad-op")
+import Holpy.C20.Model
+/-
+Line protocol of the C20 model (one s-expression in, one out).
+
+  EXPR  = (var x) | (int n) | (bool T|F) | (un neg|not E) | (bin OP E E) | (fn1 abs|max E)
+        | (fn2 abs|max E E) | (ite E E E)
+  COM   = (skip) | (assign x E) | (seq C C) | (cond E C C) | (while E E C)
+  STATE = ((x n) ...)          variables not listed are 0
+  STR   = atom, percent-encoded as in harness/common/sexp.py
+
+  (vcs COM PRE POST)        -> (ok ACOM (E ...) (STR ...))   annotated command, VCs, printed VCs
+  (pp E)                    -> STR
+  (lexpp E)                 -> T | F        does `lex (pp E)` equal `toks E`
+  (ppcom COM)               -> (STR ...)                      lines of print_com
+  (parsecond STR)           -> (ok E) | err
+  (parsecom STR)            -> (ok COM) | err
+  (eval E STATE)            -> (int n) | (bool T|F) | none
+  (interp FUEL COM STATE (x ...)) -> (ok (n ...)) | stuck | fuel
+-/
+open Holpy Holpy.C20
+
+namespace Holpy.C20.Driver
+
+def safeChars : List Char :=
+  "abcdefghijklmnopqrstuvwxyzABCDEFGHIJKLMNOPQRSTUVWXYZ0123456789_-+.'?:=<>!*/&|~^@#$,;[]{}".toList
+
+def hexStr (n : Nat) : String := String.ofList (Nat.toDigits 16 n)
+
+def enc (s : String) : String :=
+  if s.isEmpty then "%e" else
+  String.join (s.toList.map fun c =>
+    if safeChars.contains c then String.singleton c else "%" ++ hexStr c.toNat ++ "%")
+
+def hexVal (cs : List Char) : Nat :=
+  cs.foldl (fun n c =>
+    16 * n + (if c.isDigit then c.toNat - '0'.toNat
+              else if 'a' ≤ c ∧ c ≤ 'f' then c.toNat - 'a'.toNat + 10
+              else if 'A' ≤ c ∧ c ≤ 'F' then c.toNat - 'A'.toNat + 10 else 0)) 0
+
+partial def decAux : List Char → List Char → List Char
+  | [], acc => acc.reverse
+  | '%' :: cs, acc =>
+    let h := cs.takeWhile (· != '%')
+    let rest := (cs.dropWhile (· != '%')).drop 1
+    decAux rest (Char.ofNat (hexVal h) :: acc)
+  | c :: cs, acc => decAux cs (c :: acc)
+
+def dec (a : String) : String :=
+  if a = "%e" then "" else String.ofList (decAux a.toList [])
+
+def uopOf : String → Option UOp
+  | "neg" => some .neg | "not" => some .not | _ => none
+def uopTo : UOp → String
+  | .neg => "neg" | .not => "not"
+def bopOf : String → Option BOp
+  | "add" => some .add | "sub" => some .sub | "mul" => some .mul
+  | "eq" => some .eq | "ne" => some .ne | "le" => some .le | "lt" => some .lt
+  | "ge" => some .ge | "gt" => some .gt
+  | "and" => some .and | "or" => some .or | "imp" => some .imp | "iff" => some .iff
+  | _ => none
+def bopTo : BOp → String
+  | .add => "add" | .sub => "sub" | .mul => "mul"
+  | .eq => "eq" | .ne => "ne" | .le => "le" | .lt => "lt" | .ge => "ge" | .gt => "gt"
+  | .and => "and" | .or => "or" | .imp => "imp" | .iff => "iff"
+def fnOfS : String → Option Fn
+  | "abs" => some .abs | "max" => some .max | _ => none
+
+partial def exprOf : Sexp → Option Expr
+  | .list [.atom "var", .atom x] => some (.var (dec x))
+  | .list [.atom "int", n] => do some (.int (← n.toInt?))
+  | .list [.atom "bool", b] => do some (.bool (← b.toBool?))
+  | .list [.atom "un", .atom o, a] => do some (.un (← uopOf o) (← exprOf a))
+  | .list [.atom "bin", .atom o, a, b] => do some (.bin (← bopOf o) (← exprOf a) (← exprOf b))
+  | .list [.atom "fn1", .atom f, a] => do some (.fn1 (← fnOfS f) (← exprOf a))
+  | .list [.atom "fn2", .atom f, a, b] => do some (.fn2 (← fnOfS f) (← exprOf a) (← exprOf b))
+  | .list [.atom "ite", c, a, b] => do some (.ite (← exprOf c) (← exprOf a) (← exprOf b))
+  | _ => none
+
+def exprTo : Expr → Sexp
+  | .var x => .list [.atom "var", .atom (enc x)]
+  | .int i => .list [.atom "int", Sexp.ofInt i]
+  | .bool b => .list [.atom "bool", Sexp.ofBool b]
+  | .un o a => .list [.atom "un", .atom (uopTo o), exprTo a]
+  | .bin o a b => .list [.atom "bin", .atom (bopTo o), exprTo a, exprTo b]
+  | .fn1 f a => .list [.atom "fn1", .atom f.str, exprTo a]
+  | .fn2 f a b => .list [.atom "fn2", .atom f.str, exprTo a, exprTo b]
+  | .ite c a b => .list [.atom "ite", exprTo c, exprTo a, exprTo b]
+
+partial def comOf : Sexp → Option Com
+  | .list [.atom "skip"] => some .skip
+  | .list [.atom "assign", .atom x, e] => do some (.assign (dec x) (← exprOf e))
+  | .list [.atom "seq", a, b] => do some (.seq (← comOf a) (← comOf b))
+  | .list [.atom "cond", b, c1, c2] => do some (.cond (← exprOf b) (← comOf c1) (← comOf c2))
+  | .list [.atom "while", b, i, c] => do some (.while (← exprOf b) (← exprOf i) (← comOf c))
+  | _ => none
+
+def comTo : Com → Sexp
+  | .skip => .list [.atom "skip"]
+  | .assign x e => .list [.atom "assign", .atom (enc x), exprTo e]
+  | .seq a b => .list [.atom "seq", comTo a, comTo b]
+  | .cond b c1 c2 => .list [.atom "cond", exprTo b, comTo c1, comTo c2]
+  | .while b i c => .list [.atom "while", exprTo b, exprTo i, comTo c]
+
+def exprsTo (l : List Expr) : Sexp := .list (l.map exprTo)
+
+def acomTo : ACom → Sexp
+  | .skip p q => .list [.atom "skip", exprsTo p, exprsTo q]
+  | .assign p q _ _ => .list [.atom "assign", exprsTo p, exprsTo q]
+  | .seq p q a b => .list [.atom "seq", exprsTo p, exprsTo q, acomTo a, acomTo b]
+  | .cond p q _ a b => .list [.atom "cond", exprsTo p, exprsTo q, acomTo a, acomTo b]
+  | .while p q _ _ a => .list [.atom "while", exprsTo p, exprsTo q, acomTo a]
+
+def stateOf (s : Sexp) : Option State := do
+  let xs ← s.toList?
+  let ps ← xs.mapM fun
+    | .list [.atom x, n] => do some (dec x, (← n.toInt?))
+    | _ => none
+  some (fun y => match ps.find? (·.1 = y) with
+    | some p => p.2
+    | none => 0)
+
+def valTo : Option Val → Sexp
+  | some (.int i) => .list [.atom "int", Sexp.ofInt i]
+  | some (.bool b) => .list [.atom "bool", Sexp.ofBool b]
+  | none => .atom "none"
+
+def handle (line : String) : String :=
+  match Sexp.parse line with
+  | some (.list [.atom "vcs", c, p, q]) =>
+    match comOf c, exprOf p, exprOf q with
+    | some c, some p, some q =>
+      let a := computeWp c [p] q
+      let vcs := getVcs a
+      toString (Sexp.list [.atom "ok", acomTo a, exprsTo vcs, .list (vcs.map fun v => .atom (enc (pp v)))])
+    | _, _, _ => "bad-op"
+  | some (.list [.atom "pp", e]) =>
+    match exprOf e with
+    | some e => enc (pp e)
+    | none => "bad-op"
+  | some (.list [.atom "lexpp", e]) =>
+    match exprOf e with
+    | some e => toString (Sexp.ofBool (lex (pp e) == some (toks e)))
+    | none => "bad-op"
+  | some (.list [.atom "ppcom", c]) =>
+    match comOf c with
+    | some c => toString (Sexp.list ((ppCom 0 c).map fun l => .atom (enc l)))
+    | none => "bad-op"
+  | some (.list [.atom "parsecond", .atom s]) =>
+    match parseCond (dec s) with
+    | some e => toString (Sexp.list [.atom "ok", exprTo e])
+    | none => "err"
+  | some (.list [.atom "parsecom", .atom s]) =>
+    match parseCom (dec s) with
+    | some c => toString (Sexp.list [.atom "ok", comTo c])
+    | none => "err"
+  | some (.list [.atom "eval", e, st]) =>
+    match exprOf e, stateOf st with
+    | some e, some s => toString (valTo (evalE s e))
+    | _, _ => "bad-op"
+  | some (.list [.atom "interp", fuel, c, st, .list vars]) =>
+    match fuel.toNat?, comOf c, stateOf st with
+    | some f, some c, some s =>
+      match interp f c s with
+      | .ok s' => toString (Sexp.list [.atom "ok", .list (vars.map fun
+          | .atom x => Sexp.ofInt (s' (dec x))
+          | _ => .atom "?")])
+      | .stuck => "stuck"
+      | .fuel => "fuel"
+    | _, _, _ => "bad-op"
+  | _ => "bad-op"
+
+end Holpy.C20.Driver
+
+def main : IO Unit := Holpy.lineLoop Holpy.C20.Driver.handle
